@@ -26,6 +26,7 @@ func multiExec(s core.Spec) core.Exec {
 	req := make([]chan msg, n)
 	grant := make([]chan struct{}, n)
 	tapes := make([]string, n)
+	panicked := make([]bool, n)
 	fin := make(chan int, n)
 	for i := range sp.Conns {
 		req[i] = make(chan msg)
@@ -35,6 +36,14 @@ func multiExec(s core.Spec) core.Exec {
 		c.turn = func(int) { req[i] <- msg{}; <-grant[i] }
 		c.finish = func() {}
 		go func() {
+			defer func() {
+				if r := recover(); r != nil {
+					// e.g. compress/flate panicking because two connections drive one flate.Writer
+					panicked[i] = true
+					req[i] <- msg{done: true}
+					fin <- i
+				}
+			}()
 			ex, _ := writerRun(&c)
 			tapes[i] = ex.Tape
 			req[i] <- msg{done: true}
@@ -77,6 +86,11 @@ func multiExec(s core.Spec) core.Exec {
 	for i := 0; i < n; i++ { // whatever the schedule left over, in connection order
 		for alive[i] {
 			step(i)
+		}
+	}
+	for i := range panicked {
+		if panicked[i] {
+			return core.Exec{Tape: "70 1 0 0 1", Tags: []string{"PANIC", core.Tag("conns:%d", n)}, Nontrivial: true}
 		}
 	}
 	t := core.NewTape(25)
@@ -152,6 +166,14 @@ func init() {
 			err := json.Unmarshal(raw, &s)
 			return &s, err
 		},
-		Clauses: writerClauses,
+		Clauses: c02mClauses(),
 	})
+}
+
+func c02mClauses() map[int]string {
+	m := map[int]string{50: "a write call panicked"}
+	for k, v := range writerClauses {
+		m[k] = v
+	}
+	return m
 }
